@@ -2603,8 +2603,13 @@ class PGPKey(Armorable, ParentRef, PGPObject):
 
             raise PGPError("Cannot decrypt the provided message with this key")
 
-        pkesk = next(pk for pk in message._sessionkeys
-                     if isinstance(pk, PKESessionKey) and pk.pkalg == self.key_algorithm and pk.encrypter == self.fingerprint.keyid)
+        pkesk = next((pk for pk in message._sessionkeys
+                      if isinstance(pk, PKESessionKey) and pk.pkalg == self.key_algorithm and pk.encrypter == self.fingerprint.keyid),
+                     None)
+        if pkesk is None:
+            # a session key packet names this key id but not this key's algorithm
+            raise PGPError("Cannot decrypt the provided message with this key")
+
         alg, key = pkesk.decrypt_sk(self._key)
 
         # now that we have the symmetric cipher used and the key, we can decrypt the actual message
